@@ -1034,7 +1034,15 @@ fn note_presented_c25(
                         _ => "still_stored_at_arrival",
                     };
                     let order = if t2 >= t1 { "in_order" } else { "out_of_order" };
-                    let sig = format!("too_close|earlier_sample={earlier}|stamps={order}");
+                    // was the earlier sample the last one presented for this instance before the
+                    // later one arrived, or did another presented sample arrive in between?
+                    let n1 = na.min(nb);
+                    let between = list.iter().any(|(_, idc)| {
+                        let nc = arrivals.get(idc).map(|x| x.0).unwrap_or(0);
+                        *idc != id1 && *idc != id2 && nc > n1 && nc < n2
+                    });
+                    let vs = if between { "older_accepted" } else { "last_accepted" };
+                    let sig = format!("too_close|earlier_sample={earlier}|stamps={order}|vs={vs}");
                     if !out.findings.iter().any(|f| f.sig == sig) {
                         out.findings.push(Found {
                             sig,
